@@ -35,7 +35,7 @@
 use crate::errors::*;
 use dmntk_common::Result;
 use dmntk_feel::{FeelType, Name};
-use dmntk_model::model::{Definitions, ItemDefinition, ItemDefinitionType, NamedElement};
+use dmntk_model::model::{Definitions, Expression, ItemDefinition, ItemDefinitionType, NamedElement};
 use std::collections::{BTreeMap, HashMap};
 
 /// Type of function that evaluates the item definition type.
@@ -51,6 +51,7 @@ pub struct ItemDefinitionTypeEvaluator {
 impl ItemDefinitionTypeEvaluator {
   /// Creates item definition type evaluators.
   pub fn build(&mut self, definitions: &Definitions) -> Result<()> {
+    check_references(definitions)?;
     for item_definition in definitions.item_definitions() {
       let evaluator = build_item_definition_type_evaluator(item_definition)?;
       let type_ref = item_definition.name().to_string();
@@ -66,6 +67,42 @@ impl ItemDefinitionTypeEvaluator {
       None
     }
   }
+}
+
+/// Checks that no item definition refers to itself, directly, through its components
+/// or through other item definitions; types are expanded recursively, so such
+/// a definition could never be resolved.
+fn check_references(definitions: &Definitions) -> Result<()> {
+  fn collect(item_definition: &ItemDefinition, references: &mut Vec<String>) {
+    if let Some(type_ref) = item_definition.type_ref() {
+      references.push(type_ref.clone());
+    }
+    for component in item_definition.item_components() {
+      collect(component, references);
+    }
+  }
+  let mut graph: HashMap<&str, Vec<String>> = HashMap::new();
+  for item_definition in definitions.item_definitions() {
+    let mut references = vec![];
+    collect(item_definition, &mut references);
+    graph.insert(item_definition.name(), references);
+  }
+  for start in graph.keys() {
+    let mut visited: Vec<&str> = vec![];
+    let mut pending: Vec<&str> = graph[start].iter().map(|s| s.as_str()).collect();
+    while let Some(name) = pending.pop() {
+      if name == *start {
+        return Err(err_cyclic_item_definition(start));
+      }
+      if !visited.contains(&name) {
+        visited.push(name);
+        if let Some(references) = graph.get(name) {
+          pending.extend(references.iter().map(|s| s.as_str()));
+        }
+      }
+    }
+  }
+  Ok(())
 }
 
 ///
